@@ -30,8 +30,69 @@ Definition enc_event (e : event) : vl :=
   | Handler a => VL [VN 2; VN (N.of_nat a)]
   end.
 
+(* re-entrant case: ( 1 apps nodes calls mode )
+   nodes: ( (level (attached ...)) ... )   node 0 = root, node k>0 = non-additive logger "n<k>"
+   call:  ( id by_handler by_app node L (panicking-appender ...) (kid-call ...) )
+   mode:  0 = one thread issues all top-level calls (each under catch_unwind)
+          1 = thread 1 issues the first call, thread 2 the others (rendezvous `sched`)
+   result events: (0 id app k) consult, (1 id app) deliver, (2 id app) handler, (3 id) panic *)
+Definition dec_node (v : vl) : option (N * list nat) :=
+  match v with
+  | VL [VN lvl; att] =>
+    match val_list val_N att with
+    | Some l => Some (lvl, map N.to_nat l)
+    | None => None
+    end
+  | _ => None
+  end.
+
+Section OMap.
+  Context {A B : Type} (f : A -> option B).
+  Fixpoint omap_c03 (l : list A) : option (list B) :=
+    match l with
+    | [] => Some []
+    | x :: xs => match f x, omap_c03 xs with
+                 | Some y, Some ys => Some (y :: ys)
+                 | _, _ => None
+                 end
+    end.
+End OMap.
+
+Fixpoint dec_call (v : vl) : option call :=
+  match v with
+  | VL l =>
+    match l with
+    | [VN id; bh; VN ba; VN nd; VN L; pan; VL kids] =>
+      match val_bool bh, val_list val_N pan, omap_c03 dec_call kids with
+      | Some h, Some p, Some ks =>
+        Some (Call (N.to_nat id) h (N.to_nat ba) (N.to_nat nd) L (map N.to_nat p) ks)
+      | _, _, _ => None
+      end
+    | _ => None
+    end
+  | _ => None
+  end.
+
+Definition enc_rev (r : rev) : vl :=
+  match r with
+  | Ev id (Consult a k) => VL [VN 0; VN (N.of_nat id); VN (N.of_nat a); VN (N.of_nat k)]
+  | Ev id (Deliver a) => VL [VN 1; VN (N.of_nat id); VN (N.of_nat a)]
+  | Ev id (Handler a) => VL [VN 2; VN (N.of_nat id); VN (N.of_nat a)]
+  | Unwind id => VL [VN 3; VN (N.of_nat id)]
+  end.
+
 Definition c03_run (v : vl) : vl :=
   match v with
+  | VL [VN 1; apps; nds; cs; VN mode] =>
+    match val_list dec_app apps, val_list dec_node nds, val_list dec_call cs with
+    | Some aps, Some ns, Some calls =>
+      VL (map enc_rev
+            (match mode, calls with
+             | 1, c1 :: rest => sched (run_seq aps ns [c1]) (run_seq aps ns rest)
+             | _, _ => run_seq aps ns calls
+             end))
+    | _, _, _ => VBad
+    end
   | VL [VN lvl; VN L; apps; att] =>
     match val_list dec_app apps, val_list val_N att with
     | Some aps, Some at_ =>
